@@ -183,7 +183,7 @@ func (g *sgen) stmt() Stmt {
 		d, t := g.tk("lambda f: f")
 		return Stmt{Kind: "compound", Lines: []string{"@" + d, "def g" + fmt.Sprint(r.Intn(2)) + "():", in + "return 42"}, Ticks: []int{t}}
 	case x < 37 && r.Chance(1, 2):
-		switch r.Intn(7) {
+		switch r.Intn(11) {
 		case 0: // for/else
 			n, t := g.tk(fmt.Sprint(1 + r.Intn(2)))
 			a, t2 := g.tk("7")
@@ -207,6 +207,20 @@ func (g *sgen) stmt() Stmt {
 			a, t := g.tk(g.intExpr())
 			e, t2 := g.tk(g.intExpr())
 			return Stmt{Kind: "semi-expr", Lines: []string{g.v() + " = " + a + "; " + e}, Ticks: []int{t, t2}}
+		case 6: // if / elif / else over several lines
+			c, t := g.tk(g.v() + " > 100")
+			d, t2 := g.tk(g.v() + " < 100")
+			a, t3 := g.tk("5")
+			return Stmt{Kind: "compound", Lines: []string{"if " + c + ":", in + "pass", "elif " + d + ":", in + g.v() + " = " + a, "else:", in + "pass"}, Ticks: []int{t, t2, t3}}
+		case 7: // with statement
+			a, t := g.tk("4")
+			return Stmt{Kind: "compound", Lines: []string{"with CM() as w:", in + g.v() + " = w + " + a}, Ticks: []int{t}}
+		case 8: // a call spanning lines, with a comment line and a blank line inside the brackets
+			a, t := g.tk(g.intExpr())
+			return Stmt{Kind: "bracket", Lines: []string{g.v() + " = max(" + a + ",", "  # a comment inside the call", "", "  3)"}, Ticks: []int{t}}
+		case 9: // dict display over several lines
+			a, t := g.tk(g.intExpr())
+			return Stmt{Kind: "bracket", Lines: []string{"dd = {'a': " + a + ",  # first", "      'b': 2,", "}"}, Ticks: []int{t}}
 		default: // a whitespace-only line inside a block does not end it
 			a, t := g.tk(g.intExpr())
 			b, t2 := g.tk(g.intExpr())
@@ -265,6 +279,7 @@ func (Engine) Gen(seed uint64, idx int, tier string) interface{} {
 	for i := 0; i < 3; i++ {
 		sc.Stmts = append(sc.Stmts, Stmt{Kind: "compound", Lines: []string{fmt.Sprintf("def f%d(a, b=1):", i), g.ind + "return a + b"}})
 	}
+	sc.Stmts = append(sc.Stmts, Stmt{Kind: "compound", Lines: []string{"class CM:", g.ind + "def __enter__(self):", g.ind + g.ind + "return 3", g.ind + "def __exit__(self, *a):", g.ind + g.ind + "return False"}})
 	n := 3 + r.Intn(12)
 	if tier == "thorough" && r.Chance(1, 3) {
 		n = 15 + r.Intn(25)
